@@ -227,7 +227,7 @@ class RecvProto(Suite):
             "answered while STATs still flow, EOF before FIN (negative); non-trivial = >= 2 regular files in the view, distinct")
 
     def gen(self, rng, tier):
-        n = {"quick": 300, "thorough": 8000, "search": 150}[tier]
+        n = {"quick": 700, "thorough": 8000, "search": 150}[tier]
         ops = []
         for _ in range(n):
             wide = rng.random() < 0.04
@@ -370,9 +370,32 @@ class Hostile(Suite):
             "ERR; dirty destinations containing symlinks that point outside, also under the names the receiver itself writes (metadata-only listing, merge mode); non-trivial = script with >= 2 packets, distinct")
 
     def gen(self, rng, tier):
-        n = {"quick": 500, "thorough": 6000, "search": 120}[tier]
+        n = {"quick": 1500, "thorough": 6000, "search": 120}[tier]
         ops = []
         for _ in range(n):
+            if rng.random() < 0.05:
+                # an otherwise well-formed stream with ONE hard link whose name escapes dest with '..' - and whose root-cleaned form is the
+                # path of an entry that was sent before (a decoy): the link must still be refused
+                L = rng.choice([b"../../sent", b"../sib/h", b"../../../outside/f", b"a/../../sib/h", b"../../../outside/d/g"])
+                P = [c for c in L.split(b"/") if c not in (b"..", b"a")]
+                stats = []
+                for d in range(1, len(P)):
+                    stats.append(gen.rand_stat(rng, b"/".join(P[:d]), True))
+                fs_ = gen.rand_stat(rng, b"/".join(P), False)
+                fs_.update({"mode": 0o644, "size": 3, "ln": "", "dmaj": 0, "dmin": 0})
+                stats.append(fs_)
+                lk = gen.rand_stat(rng, b"zzlink", False)
+                lk.update({"mode": rng.choice([0o644, 0o600]), "size": 0, "ln": hx(L), "dmaj": 0, "dmin": 0})
+                stats.append(lk)
+                for extra in rng.sample([b"b", b"c0", b"k"], rng.randint(0, 2)):
+                    stats.append(gen.rand_stat(rng, extra, False))
+                for st in stats:
+                    st.setdefault("x", [])
+                    st["size"] = min(st.get("size", 0), 100)
+                stats.sort(key=lambda st: gen.pathkey(bytes.fromhex(st["p"])))
+                script = [{"t": "STAT", "stat": st} for st in stats] + [{"t": "STAT"}]
+                ops.append({"op": "hostile", "script": script, "dst": [], "answer": True, "opt": {"cap": rng.choice([0, 4, 32]), "seed": rng.randrange(1 << 30)}})
+                continue
             if rng.random() < 0.08:
                 # a WELL-FORMED stream against a destination whose directories have children named like the sentinels' children: the
                 # stream drops some of those directories and turns others into symlinks that point at the sentinel directories
